@@ -1868,6 +1868,11 @@ class SolidityStorage(Storage):
         # m[k] : hash(k.m)  where |k| != 256-bit
         elif is_f_sha3_name(loc.decl().name()):
             sha3_input = normalize(loc.arg(0))
+            if is_bv_value(sha3_input) and sha3_input.size() > 256:
+                # fully concrete preimage (e.g. a registered hash coming back from reverse_lookup): split key ‖ base
+                offset = simplify(Extract(sha3_input.size() - 1, 256, sha3_input))
+                base = simplify(Extract(255, 0, sha3_input))
+                return cls.decode(ex, base) + (offset, Z3_ZERO)
             if sha3_input.decl().name() == "concat" and sha3_input.num_args() == 2:
                 offset = simplify(sha3_input.arg(0))
                 base = simplify(sha3_input.arg(1))
